@@ -1657,6 +1657,12 @@ def execute(schedule, ctx):
                     y_ = x.reindex(spans.make_span(dict(party.span_spec, n=0)))
                 except Exception:
                     y_ = None
+                now_ = O.obs(x)
+                if now_ != before[i]:
+                    # (a reindex - completed or failed - leaves its source as it was; a source whose span has changed
+                    # under it can no longer be addressed by the labels this history knows)
+                    for tag_ in ('C12', 'C10'):
+                        ctx.check(tag_, 'reindex/source-and-others-unchanged' + ('/after-failure' if y_ is None else ''), False, {'party': i, 'paths': O.diff(before[i], now_)[:5], 'onto': 'an empty span of the same kind'})
                 if y_ is not None and len(y_.__dict__['span']) == 0:
                     ctx.probe('empty-span-label-access')
                     lab_ = absent(party, ctx.step % 3)
